@@ -209,7 +209,10 @@ def directed(ctx, sc0):
     every join.  Both kinds of join happen with a TS GOP cache of one and of two GOPs: the earlier publisher leaves one
     (three) cached GOPs behind, which a late joiner of the later publisher must not be handed."""
     out = []
-    for pi, plan in enumerate(PLANS_QUICK[:5] + [[VO, AO], [AO, VO]]):
+    # (the eighth: a codec swap with no TS GOP cache, the second HTTP-TS consumer joins the EARLIER publisher after its last key
+    #  frame - it has been given PAT / PMT and is still waiting for a key frame when the publisher leaves; it must be given the
+    #  tables of the later publisher before that one's first key frame)
+    for pi, plan in enumerate(PLANS_QUICK[:5] + [[VO, AO], [AO, VO], [AV, ("hevc", "aac")]]):
         steps = [{"name": "Join", "c": "t1"}]
         ver = 0
         for i, (v, a) in enumerate(plan):
@@ -245,13 +248,15 @@ def directed(ctx, sc0):
             if i == 0:
                 body.insert(5, {"name": "DescR"})        # stays attached across the republish
                 body.insert(7 + pi % 3, {"name": "PlayR"})
-            if i == 1 and pi % 2 == 1:
+            if pi == 7 and i == 0:
+                body.insert(len(body) - 2, {"name": "Join", "c": "t2"})
+            if i == 1 and pi % 2 == 1 and pi != 7:
                 body.insert(18, {"name": "Join", "c": "t2"})     # late in the later epoch (past lal's probe stage), a key frame to come
             steps += body
             steps.append({"name": "PubLeave"})
         v0, a0 = plan[0]
         out.append({"sc": sc0 + len(out), "plan": plan_name(plan), "steps": steps,
-                    "cfg": {"v": v0, "a": a0, "gop": [1, 1, 2, 2, 1, 0, 2][pi % 7], "hls": True, "fragMs": 100, "rtsp": True,
+                    "cfg": {"v": v0, "a": a0, "gop": [1, 1, 2, 2, 1, 0, 2, 0][pi], "hls": True, "fragMs": 100, "rtsp": True,
                             "enh": False, "rep": True}})
     return out
 
